@@ -39,6 +39,17 @@ func (c *Client) VerifDeliverUriEvent(cluster string, e TreeCacheEvent) {
 	c.waitForUriUpdates(cluster, ch)
 }
 
+// VerifDeliverUriEvents pushes several events through ONE run of the real waitForUriUpdates loop (one
+// TreeCache channel, as in production).
+func (c *Client) VerifDeliverUriEvents(cluster string, es []TreeCacheEvent) {
+	ch := make(chan TreeCacheEvent, len(es))
+	for _, e := range es {
+		ch <- e
+	}
+	close(ch)
+	c.waitForUriUpdates(cluster, ch)
+}
+
 // VerifDeliverServiceEvent pushes one event through the real waitForServiceUpdates loop.
 func (c *Client) VerifDeliverServiceEvent(service string, e TreeCacheEvent) {
 	ch := make(chan TreeCacheEvent, 1)
@@ -47,7 +58,7 @@ func (c *Client) VerifDeliverServiceEvent(service string, e TreeCacheEvent) {
 	c.waitForServiceUpdates(service, ch)
 }
 
-func (c *Client) VerifSeedService(name string, s *Service) { c.services.Store(name, s) }
+func (c *Client) VerifSeedService(name string, s *Service)     { c.services.Store(name, s) }
 func (c *Client) VerifSeedUris(cluster string, u *serviceUris) { c.uris.Store(cluster, u) }
 func (c *Client) VerifCurrentUris(cluster string) *serviceUris {
 	v, ok := c.uris.Load(cluster)
@@ -68,4 +79,4 @@ func (c *Client) VerifCurrentService(name string) *Service {
 
 // VerifSetRngSource replaces the package-level random source (the environment answer).
 func VerifSetRngSource(src rand.Source) { rng = rand.New(src) }
-func VerifRngFloat64() float64         { return rng.Float64() }
+func VerifRngFloat64() float64          { return rng.Float64() }
